@@ -1211,7 +1211,16 @@ func parseCheckConstraint(prefix, key, value []byte) (*CheckConstraint, error) {
 		return nil, err
 	}
 
-	nameLen := value[0] + 1
+	if len(value) < 1 {
+		return nil, ErrCorruptedData
+	}
+
+	nameLen := int(value[0]) + 1
+
+	if len(value) < 1+nameLen {
+		return nil, ErrCorruptedData
+	}
+
 	name := string(value[1 : 1+nameLen])
 
 	exp, err := ParseExpFromString(string(value[1+nameLen:]))
